@@ -85,7 +85,11 @@ func genC02(c *runCfg) error {
 			g.w("\tmsg.%s.%s.Octet[%d] = es[%d].V[0]\n", fam, hdr, k, k)
 		}
 		g.w("\tout, err := msg.PlainNasEncode()\n\tvrt.Assert(err == nil, \"%s: PlainNasEncode succeeds\")\n", m.Message)
-		g.w("\tvrt.Assume(es[0].V[0] == 0x7e || es[0].V[0] == 0x2e) // the discriminator octet is part of well-formedness\n")
+		epdv := "0x7e"
+		if m.Family == "gsm" {
+			epdv = "0x2e"
+		}
+		g.w("\tvrt.Assume(es[0].V[0] == %s) // the discriminator octet of the family is part of well-formedness\n", epdv)
 		g.w("\tback := NewMessage()\n\terr = back.PlainNasDecode(&out)\n\tvrt.Assert(err == nil, \"%s: decoding the encoding succeeds\")\n", m.Message)
 		g.w("\tvrt.Assert(back.%s != nil && back.%s.%s != nil, \"%s: the same body is populated\")\n", fam, fam, m.Message, m.Message)
 		g.w("\tvrt.Equal(back.%s.%s, a, \"%s: decode(encode(m)) == m\")\n", fam, m.Message, m.Message)
@@ -311,5 +315,98 @@ func genC05(c *runCfg) error {
 		g.w("\t\tdirect := new(bytes.Buffer)\n\t\t_ = a.Encode%s(direct)\n\t\tvrt.Equal(buf.Bytes(), direct.Bytes(), \"%s: dispatcher output = the body's own encoding\")\n", m.Message, m.Message)
 		g.w("\t} else {\n\t\tvrt.Assert(err != nil, \"%s: unknown message type is an encode error\")\n\t}\n}\n\n", m.Message)
 	}
+	// decode dispatch, per message: every input length 0..min+2, header octets selecting this message
+	for i := range g.spec.Messages {
+		m := &g.spec.Messages[i]
+		if m.MsgType == nil {
+			continue
+		}
+		h := hdrLen(m)
+		epd, F, entry := "0x7e", "Gmm", "GmmMessageDecode"
+		if m.Family == "gsm" {
+			epd, F, entry = "0x2e", "Gsm", "GsmMessageDecode"
+		}
+		g.w("func VH_C05_dec_%s() {\n", m.Message)
+		g.w("\tn := vrt.Choose(\"n\", 0, %d)\n\tin := vrt.Bytes(\"in\", n)\n", h+mandMin(m)+2)
+		g.w("\tif n > 0 {\n\t\tvrt.Assume(in[0] == %s)\n\t}\n\tif n > %d {\n\t\tvrt.Assume(in[%d] == %d)\n\t}\n", epd, h-1, h-1, *m.MsgType)
+		g.w("\tmsg := NewMessage()\n\tvar err error\n\tif vrt.Bool(\"viaPlain\") {\n\t\terr = msg.PlainNasDecode(&in)\n\t} else {\n\t\terr = msg.%s(&in)\n\t}\n", entry)
+		g.w("\tif err == nil {\n\t\tvrt.Reach(\"%s accepted\")\n\t\tzzC05post%s(msg, in)\n\t\tvrt.Assert(msg.%sMessage.%s != nil, \"%s: the body named by the message type is populated\")\n\t}\n}\n\n", m.Message, F, F, m.Message, m.Message)
+	}
+	g.w(`func zzC05postGmm(msg *Message, in []byte) {
+	vrt.Assert(len(in) >= 3, "accepted 5GMM input is at least a header long")
+	vrt.Assert(msg.GmmMessage != nil && msg.GsmMessage == nil, "5GMM input populates only the 5GMM family")
+	typ, count := zzBodyGmmMessage(msg.GmmMessage)
+	vrt.Assert(count == 1, "exactly one 5GMM body populated")
+	vrt.Assert(typ == int(in[2]), "the populated 5GMM body is the one named by the message type octet")
+	vrt.Assert(zzKnownGmmMessage(in[2]), "accepted 5GMM message type is a known type")
+	vrt.Assert(zzHdrAgree(msg), "5GMM header view agrees with the body's own header octets")
+	vrt.Assert(msg.GmmMessage.GmmHeader.Octet[0] == in[0] && msg.GmmMessage.GmmHeader.Octet[1] == in[1] && msg.GmmMessage.GmmHeader.Octet[2] == in[2], "5GMM header view = first three octets")
+}
+
+func zzC05postGsm(msg *Message, in []byte) {
+	vrt.Assert(len(in) >= 4, "accepted 5GSM input is at least a header long")
+	vrt.Assert(msg.GsmMessage != nil && msg.GmmMessage == nil, "5GSM input populates only the 5GSM family")
+	typ, count := zzBodyGsmMessage(msg.GsmMessage)
+	vrt.Assert(count == 1, "exactly one 5GSM body populated")
+	vrt.Assert(typ == int(in[3]), "the populated 5GSM body is the one named by the message type octet")
+	vrt.Assert(zzKnownGsmMessage(in[3]), "accepted 5GSM message type is a known type")
+	vrt.Assert(zzHdrAgree(msg), "5GSM header view agrees with the body's own header octets")
+	vrt.Assert(msg.GsmMessage.GsmHeader.Octet[0] == in[0] && msg.GsmMessage.GsmHeader.Octet[1] == in[1] && msg.GsmMessage.GsmHeader.Octet[2] == in[2] && msg.GsmMessage.GsmHeader.Octet[3] == in[3], "5GSM header view = first four octets")
+}
+
+// all (discriminator, type) pairs on short inputs through the discriminator-dispatched entry point
+func VH_C05_dec_any() {
+	n := vrt.Choose("n", 0, 5)
+	in := vrt.Bytes("in", n)
+	msg := NewMessage()
+	err := msg.PlainNasDecode(&in)
+	if err == nil {
+		vrt.Assert(n > 0 && (in[0] == 0x7e || in[0] == 0x2e), "only the two 5GS discriminators are accepted")
+		if in[0] == 0x7e {
+			zzC05postGmm(msg, in)
+		} else {
+			zzC05postGsm(msg, in)
+		}
+		return
+	}
+	vrt.Reach("rejected")
+}
+
+func VH_C05_dec_mustreject() {
+	n := vrt.Choose("n", 0, 9)
+	in := vrt.Bytes("in", n)
+	bad := n == 0
+	if n > 0 && in[0] != 0x7e && in[0] != 0x2e {
+		bad = true
+	}
+	if n > 0 && in[0] == 0x7e && (n < 3 || !zzKnownGmmMessage(in[2])) {
+		bad = true
+	}
+	if n > 0 && in[0] == 0x2e && (n < 4 || !zzKnownGsmMessage(in[3])) {
+		bad = true
+	}
+	vrt.Assume(bad)
+	msg := NewMessage()
+	vrt.Assert(msg.PlainNasDecode(&in) != nil, "unknown discriminator / unknown message type / shorter than a header is rejected (PlainNasDecode)")
+	if n >= 1 && in[0] == 0x7e {
+		m2 := NewMessage()
+		vrt.Assert(m2.GmmMessageDecode(&in) != nil, "unknown 5GMM type or short header rejected (GmmMessageDecode)")
+	}
+	if n >= 1 && in[0] == 0x2e {
+		m3 := NewMessage()
+		vrt.Assert(m3.GsmMessageDecode(&in) != nil, "unknown 5GSM type or short header rejected (GsmMessageDecode)")
+	}
+}
+
+func VH_C05_nil_and_empty() {
+	msg := NewMessage()
+	vrt.Assert(msg.PlainNasDecode(nil) != nil, "nil input is rejected")
+	empty := []byte{}
+	vrt.Assert(msg.PlainNasDecode(&empty) != nil, "empty input is rejected")
+	e := NewMessage()
+	_, err := e.PlainNasEncode()
+	vrt.Assert(err != nil, "encoding a message with no body is an error")
+}
+`)
 	return g.finish(c, "C05")
 }
